@@ -289,6 +289,7 @@ func runLayout(c *ctx, which string) {
 	}
 	if which == "C18" {
 		c18SharedVocabulary(c)
+		c18SaturatedRanges(c)
 	}
 	if which == "C17" {
 		c17CopiedExternal(c)
@@ -869,5 +870,64 @@ func c18SharedVocabulary(c *ctx) {
 			check("after merge")
 		}
 		env.Stop()
+	}
+}
+
+// c18SaturatedRanges (C18): blocks whose indexed values clamp to one or both ends of int64 (floats beyond
+// the range, uint64 above MaxInt64), alone and next to ordinary values. A block lists exactly the indexed keys
+// its rows provided - a range that covers everything is still a listed key - and strict prefilters on the key
+// keep the block.
+func c18SaturatedRanges(c *ctx) {
+	cases := []struct {
+		name string
+		vals []any
+	}{
+		{"both ends", []any{-1e30, 1e30}},
+		{"both ends and middle", []any{-1e30, 5, 1e30}},
+		{"upper end only", []any{uint64(math.MaxUint64), 7}},
+		{"lower end only", []any{-1e300, -3}},
+		{"exact extremes", []any{int64(math.MinInt64), int64(math.MaxInt64)}},
+		{"single saturated value", []any{1e19}},
+	}
+	for _, tc := range cases {
+		for _, comp := range []bs.CompressionType{bs.CompressionNone, bs.CompressionSnappy} {
+			cfg := bs.DefaultBloomSearchEngineConfig()
+			cfg.MaxBufferedTime = time.Hour
+			cfg.MinMaxIndexes = []string{"v", "w"}
+			cfg.RowDataCompression = comp
+			env := NewEnv(cfg)
+			var rows []map[string]any
+			for i, v := range tc.vals {
+				rows = append(rows, map[string]any{"_id": i + 1, "v": v, "w": i})
+			}
+			env.IngestWait(rows)
+			check := func(stage string, want int) {
+				files, _ := AllFiles(env.Meta)
+				replay := map[string]any{"case": tc.name, "values": fmt.Sprint(tc.vals), "stage": stage}
+				for _, f := range files {
+					for _, b := range f.Metadata.DataBlocks {
+						for _, k := range []string{"v", "w"} {
+							if _, ok := b.MinMaxIndexes[k]; !ok {
+								c.r.Add(Finding{Kind: "violation", Check: "minmax-keys", Detail: fmt.Sprintf("%s (%s): the block does not list minmax key %q although every row provides it (ranges: %v)", tc.name, stage, k, b.MinMaxIndexes), Replay: replay})
+							}
+						}
+					}
+				}
+				for _, cond := range []bs.NumericCondition{bs.NumericGreaterThanEqual(math.MinInt64), bs.NumericLessThanEqual(math.MaxInt64), bs.NumericNotEquals(12345)} {
+					out := env.Query(bs.NewQuery().MatchPrefilter(bs.MinMax("v", cond)).Build())
+					if len(out.Rows) != want || out.Err != nil {
+						c.r.Add(Finding{Kind: "violation", Check: "minmax-cover", Detail: fmt.Sprintf("%s (%s): prefilter v %s %d returns %d of %d rows although every value satisfies it (err %v)", tc.name, stage, cond.Operator, cond.Value, len(out.Rows), want, out.Err), Replay: replay})
+					}
+				}
+			}
+			c.r.Case(true, fmt.Sprint("saturated-range ", tc.name, comp))
+			c.r.Hit("c18.saturated-range")
+			check("after flush", len(tc.vals))
+			env.IngestWait(rows)
+			if _, err := env.Eng.Merge(context.Background()); err == nil {
+				check("after merge", 2*len(tc.vals))
+			}
+			env.Stop()
+		}
 	}
 }
